@@ -35,7 +35,8 @@ from core import Eval
 
 PROPERTY = "C07"
 DRIVER = "drv_c07"
-PROPS = ["PartituraModel.Props.C07", "PartituraModel.Props.C07Codecs"]
+PROPS = ["PartituraModel.Props.C07", "PartituraModel.Props.C07Codecs", "PartituraModel.Props.C07Lines",
+         "PartituraModel.Props.C07Files"]
 TRUSTED = [
     "Python `re` for the pattern sub-language of the match modules (literals, named groups over "
     "[^,] . [0-9,] [a-z,] [^)] with + or *): leftmost match, greedy quantifiers with backtracking - "
@@ -47,40 +48,58 @@ TRUSTED = [
     "`toBinary64`, `roundHalfEven`); repr(float) of a decimal with <= 15 significant digits in [1e-4,1e16) "
     "is that decimal normalised (opaque: the model carries the decimal)",
     "int(), str.strip/split/upper/lower, numpy lcm/dot/sign/abs on small integers",
+    "load_matchfile: open()/splitlines() on ASCII text, np.unique(return_index) = first occurrences in file order "
+    "(modelled by List.eraseDups); validate_match_ids does not remove a line when all ids are distinct",
 ]
 PARTIAL = [
-    "search_format / matchAt_format / search_format_gen are proved for EVERY template satisfying TemplateOK (all "
-    "generated templates do: templates_ok); for composite lines (snote-note, deletion, insertion, ornament, "
-    "stime-ptime) search_offset reduces 'each component's search finds its own component' to the decidable "
-    "per-line condition noEarly (no anchored match starts inside the other component); that condition is not "
-    "derived from a structural comma-count argument - it is evaluated in the non-vacuity example and the "
-    "component searches are compared on every generated composite line",
-    "line_roundtrip_partial (parse(format x) = x and the formatting fixpoint) is proved for templates whose "
-    "fields are interpreted independently (pedal, ptime, stime, section, 1.0.0 note, ornament/trill heads); the "
-    "Attribute-dependent value of info/meta/scoreprop and the pitch post-processing of snote / pre-1.0 note are "
-    "compared (field by field, every generated line), not proved",
-    "codec theorems proved for all values: int, version, list/list body of words, fixed-point decimal text, simple "
-    "durations, 30 keys x 4 spellings and 900 double keys x 2 spellings, exact duration addition; compared only: "
-    "binary64 rounding inside '%.kf' and repr, additive duration strings, key lists with further components, time "
-    "signatures, quoted pre-1.0 strings, tempo indication",
-    "FractionalSymbolicDuration.bound_integers (numerator or denominator > 1024) uses binary64 arithmetic: "
-    "covered by the oracle only, not by the model",
+    "line_roundtrip (every well-formed template, codec selected by the Attribute, pitch post-processing, line at an "
+    "offset), pitch_line_roundtrip (all 11 templates with pitch post-processing, every step x accidental x octave), "
+    "line_roundtrip_adm / pitch_line_roundtrip_adm (admissible values only, no round-trip hypothesis left) carry the "
+    "decidable side condition FieldsOKGen on the written texts (a field text must not contain the literal that "
+    "terminates it): it is a condition on the values, checked for every generated line by the comparison, not "
+    "derived from a character-level description of each codec's output",
+    "composite lines: composite_pair / _pair0 / _suffix / _prefix give the round trip of all 45 generated composites "
+    "from the component round trips and the STRUCTURAL check composites_struct_ok (kernel-decided for the whole "
+    "table), under the value condition that no field text of the first component contains '(' and the fields the "
+    "comma count walks over contain neither ',' nor ')' (identifiers without separators); lines violating it are "
+    "only compared",
+    "floats: Adm for '%.kf' / repr fields is stated on the model's own output (the number is the k-decimal numeral "
+    "the formatter prints); the binary64 rounding inside the formatter (toBinary64, roundHalfEven) is modelled "
+    "exactly and compared on boundary values, not proved (fixed_decimal_roundtrip_partial)",
+    "durations: frac_string_roundtrip / frac_string_fixpoint cover simple, tuplet and additive durations whose "
+    "running sums stay within the bound 1024 and whose parts are non-zero; a zero part is dropped by the class "
+    "(same text and value afterwards, different object - shown by an example); bound_integers (> 1024, binary64 "
+    "arithmetic) is covered by the oracle only",
+    "keys: 30 keys x 4 spellings and 900 double keys x 2 spellings by kernel evaluation; key lists with further "
+    "components (0.3.0 list spelling) are compared only",
+    "dispatch: that a written line of kind k is rejected by every parser tried before k's own is compared on every "
+    "generated line and on every line of the synthesised files, not proved; version_detected / loadFile_version "
+    "prove version detection and the parser list for every written version line a.b.c; validate_match_ids "
+    "(pruning of repeated ids) is outside the model - synthesised files use distinct ids",
     "to_v1: kind preservation and the content of pedal / deletion / note-pair / performed-note conversion are "
     "proved; the conversion of info and meta values (key, time signature, subtitle, tempo words) is compared",
 ]
 RULE = ("for every line class x supported version, field values drawn from the field tables: identifiers, every "
         "step x accidental, octaves, rests, measures/beats, fractional durations with/without tuplet divisor and "
         "additive components, boundary floats (x.00005, exact ties k/32), attribute lists of length 0-6, all 30 keys "
-        "in every spelling, ticks, controller values; plus every line of tests/data/match/*.match; distinct = "
-        "distinct formatted line per class/version; non-trivial = the line was formatted and parsed")
+        "in every spelling, ticks, controller values; every line of tests/data/match/*.match; complete SYNTHESISED "
+        "files of versions 0.1.0-0.5.0 and 1.0.0 (version line in both spellings or absent, 2-6 info lines, "
+        "meta / scoreprop lines, 12-28 body lines of all top-level kinds with distinct ids, empty / unparseable / "
+        "repeated lines) read through load_matchfile; distinct = distinct formatted line per class/version (distinct "
+        "file text); non-trivial = the line was formatted and parsed (the file was loaded)")
 LEVEL_TEXT = ("Lean 4 theorems about an executable model of template formatting and regular-expression search "
-              "(greedy with backtracking) over the GENERATED table of all match-line templates: format-then-search "
-              "returns the encoded fields for every template satisfying a decidable well-formedness predicate "
-              "(checked for the whole table by kernel decision on every run) and every field assignment satisfying a "
-              "decidable side condition; per-codec round-trip theorems; all 30 keys x 3 spellings by kernel decision; "
-              "exact duration addition.  The model is tied to the code by regenerating the templates from the live "
-              "classes and by a differential run of format / parse / re-format / to_v1 on generated field values "
-              "and on the repository's match files.")
+              "(greedy with backtracking) over the GENERATED table of all match-line templates: for every template "
+              "satisfying decidable well-formedness / dependency predicates (checked for the whole table by kernel "
+              "decision on every run) parse(format x) = x and the formatting fixpoint hold for every field assignment "
+              "that satisfies a decidable side condition - including lines whose value codec is chosen by the "
+              "Attribute, lines with pitch post-processing (every step, accidental, octave) and composite lines, whose "
+              "'no early match' condition follows from a structural check of the generated composite table; every "
+              "codec of the field tables is a round trip on its admissible values (durations with tuplet divisor and "
+              "additive components, time signatures, quoted strings, tempo, lists, versions, 30 keys x 4 spellings); "
+              "exact duration addition; version detection for every written version line.  The model is tied to the "
+              "code by regenerating the templates from the live classes and by a differential run of format / parse "
+              "(values and match offsets) / re-format / to_v1 / dispatch on generated field values, on the "
+              "repository's match files and on complete synthesised files read through load_matchfile.")
 SEARCH_LIMIT = 6000
 
 VERS0 = [(0, 1, 0), (0, 2, 0), (0, 3, 0), (0, 4, 0), (0, 5, 0)]
@@ -737,6 +756,66 @@ def g_fields(rng, kind, ver):
     raise ValueError(kind)
 
 
+TOP0 = ["snote_note", "deletion", "trailing_score", "no_played", "insertion", "hammer_bounce", "trailing_played", "trill",
+        "sustain", "soft"]
+TOP1 = ["snote_note", "deletion", "insertion", "ornament", "sustain", "soft", "section", "stime_ptime"]
+JUNK = ["", "wrong_line", "snote(", "note(a,b)", "% comment", "info(a)", "xyz(1,2).", "", "sustain(1)"]
+
+
+def uniq_ids(f, kind, i):
+    """distinct anchors / ids per file (load_matchfile prunes deletions / insertions with repeated ids)"""
+    f = dict(f)
+    if "snote" in f:
+        f["snote"] = dict(f["snote"], Anchor="s%d-%d" % (i, i % 7 + 1))
+    if "note" in f:
+        f["note"] = dict(f["note"], Id="p%d" % i)
+    return f
+
+
+def g_mfile(rng, ver):
+    """a complete match file of version `ver`: header info lines, then a shuffled body of all top-level kinds,
+    with some empty, unparseable and repeated lines thrown in"""
+    ver = tuple(ver)
+    one = ver >= (1, 0, 0)
+    m = mods()
+    tab = (m["M1"].INFO_LINE if one else m["M0"].INFO_LINE)[m["U"].Version(*ver)]
+    head = []
+    # the version line: versions < 0.2.0 may lack it; pre-1.0 files also spell it "minor.patch"
+    vmode = rng.choice(["full", "full", "short"]) if not one else "full"
+    if ver == (0, 1, 0) and rng.random() < 0.5:
+        vmode = "none"
+    if vmode != "none":
+        head.append({"kind": "info", "f": {"Attribute": "matchFileVersion", "Value": list(ver)}, "short": vmode == "short"})
+    attrs = [a for a in sorted(tab) if a != "matchFileVersion"]
+    rng.shuffle(attrs)
+    for a in attrs[:rng.randint(2, 6)]:
+        head.append({"kind": "info", "f": g_info(rng, ver, a)})
+    if vmode == "none" and rng.random() < 0.5:
+        rng.shuffle(head)  # any info line of the version may come first
+    body = []
+    if one:
+        for a in ["timeSignature", "keySignature"] + rng.sample(["tempoIndication", "beatSubDivision", "directions"], 1):
+            body.append({"kind": "scoreprop", "f": g_scoreprop(rng, a)})
+    elif ver >= (0, 3, 0):
+        for _ in range(2):
+            body.append({"kind": "meta", "f": g_fields(rng, "meta", ver)})
+    kinds = TOP1 if one else TOP0
+    i = 0
+    for _ in range(rng.randint(12, 28)):
+        k = rng.choice(kinds + ["snote_note"] * 3)
+        i += 1
+        body.append({"kind": k, "f": uniq_ids(g_fields(rng, k, ver), k, i)})
+    for _ in range(rng.randint(0, 3)):
+        body.append({"raw": rng.choice(JUNK)})
+    for _ in range(rng.randint(0, 2)):
+        body.append(dict(rng.choice(body)))  # a repeated line
+    rng.shuffle(body)
+    lines = head + body
+    if rng.random() < 0.2:
+        lines = [{"raw": ""}] + lines  # an empty first line
+    return {"k": "mfile", "ver": list(ver), "lines": lines}
+
+
 def all_classes():
     out = []
     for ver in VERS0:
@@ -792,6 +871,11 @@ def cases(rng, tier):
         keep = [l for i, l in enumerate(lines) if i < 14 or i % step == 0]
         for l in keep:
             yield {"k": "file", "file": os.path.basename(fn), "first": lines[0], "line": l}
+    # complete synthesised files of every version through load_matchfile
+    nf = {"quick": 3, "thorough": 40, "search": 6}.get(tier, 3)
+    for ver in VERS0 + [V1]:
+        for _ in range(nf):
+            yield g_mfile(rng, ver)
     # version strings (current "major.minor.patch" and the pre-1.0 "minor.patch")
     for vs in ["1.0.0", "0.5.0", "0.4.0", "0.3.0", "0.1.0", "5.0", "4.0", "3.0", "2.0", "1.0", "0.3", "10.2.33", "1.0.0rc1",
                "5.0 ", "x", "", "1", "1.", "1.a"]:
@@ -870,6 +954,9 @@ def eval_line(d):
     if modelled:
         ev.requests.append("parse %s %s" % (tpl, ws(line)))
         ev.impl.append(errtok(e2) if e2 else canon_fields(back))
+        # where every component's own pattern.search(line) starts (m.start())
+        ev.requests.append("offsets %s %s" % (tpl, ws(line)))
+        ev.impl.append(" ".join("-" if k is None else "%d" % k for k in search_offsets(obj, line)))
     # which float fields are exactly representable with the decimals printed
     exact = True
     for pre, o in parts_of(obj):
@@ -922,6 +1009,26 @@ def eval_line(d):
                 kind, ver, line, "None" if got is None else kind_of(got)))
     ev.key = tpl + "|" + line
     return ev
+
+
+def component_patterns(obj):
+    """the compiled patterns the class searches the line with, in component order"""
+    k = kind_of(obj)
+    if k in ("snote_note", "stime_ptime", "trill", "ornament"):
+        return list(obj.pattern)
+    if k in ("deletion", "trailing_score", "no_played"):
+        return [obj.snote.pattern]
+    if k in ("insertion", "hammer_bounce", "trailing_played"):
+        return [obj.note.pattern]
+    return [obj.pattern]
+
+
+def search_offsets(obj, line):
+    out = []
+    for pat in component_patterns(obj):
+        m_ = pat.search(line)
+        out.append(None if m_ is None else m_.start())
+    return out
 
 
 def pitch_of(step, alter, octave):
@@ -1165,6 +1272,80 @@ def eval_file(d):
     return ev
 
 
+def eval_mfile(d):
+    """write the synthesised lines to a file, read it with load_matchfile"""
+    import tempfile
+    ev = Eval()
+    m = mods()
+    U, IM = m["U"], m["IM"]
+    ver = tuple(d["ver"])
+    texts, objs = [], []
+    for l in d["lines"]:
+        if "raw" in l:
+            texts.append(l["raw"])
+            objs.append(None)
+            continue
+        obj, e = call(build, l["kind"], ver, l["f"])
+        if e is not None:
+            raise e
+        t, e = call(lambda: obj.matchline)
+        if e is not None:
+            ev.oracle.append("file format: %s %s: writing the line raised %s: %s" % (l["kind"], ver, type(e).__name__, e))
+            return ev
+        if l.get("short"):
+            t = "info(matchFileVersion,%d.%d)." % (ver[1], ver[2])
+        texts.append(t)
+        objs.append(obj)
+    with tempfile.NamedTemporaryFile("w", suffix=".match", delete=False, encoding="utf-8") as fh:
+        fh.write("\n".join(texts) + "\n")
+        path = fh.name
+    try:
+        mf, e = call(IM.load_matchfile, path)
+    finally:
+        os.unlink(path)
+    latin = all(ord(c) < 128 for t in texts for c in t)
+    modelled = latin and all(o is None or all(model_ok_value(v) for _, v in fields_of(o)) for o in objs)
+    if modelled:
+        ev.requests.append("loadfile " + " ".join(ws(t) for t in texts))
+        if e is not None:
+            ev.impl.append("err")
+        else:
+            vs = sorted({tuple(l.version) for l in mf.lines})
+            ev.impl.append(" | ".join(["V(%d,%d,%d)" % (vs[0] if vs else ver)] +
+                                      [kind_of(l) + " " + canon_fields(l) for l in mf.lines]))
+    if e is not None:
+        ev.oracle.append("file load: a version %s file of written lines (first line %r) raised %s: %s" % (
+            ver, next((t for t in texts if t), ""), type(e).__name__, e))
+        return ev
+    # expected: every distinct written line once, in order of first occurrence, with its kind and fields
+    exp, seen = [], set()
+    for t, o in zip(texts, objs):
+        if t == "" or t in seen:
+            continue
+        seen.add(t)
+        if o is not None:
+            exp.append((t, o))
+    got = list(mf.lines)
+    for l in got:
+        if tuple(l.version) != ver:
+            ev.oracle.append("file version: a line of the version %s file was read as version %s" % (ver, tuple(l.version)))
+            break
+    if [kind_of(l) for l in got] != [kind_of(o) for _, o in exp]:
+        ev.oracle.append("file lines: version %s file: written kinds %s, read kinds %s" % (
+            ver, [kind_of(o) for _, o in exp], [kind_of(l) for l in got]))
+    else:
+        for (t, o), l in zip(exp, got):
+            exact = all(not isinstance(getattr(p, fn), float) or representable(getattr(p, fn), spec_dec(ver, pre, fn))
+                        for pre, p in parts_of(o) for fn in p.field_names)
+            if not exact:
+                continue
+            for (n, a), (_, b) in zip(fields_of(o), fields_of(l)):
+                if not values_equal(a, b) and not rational_total(o, n, a, b):
+                    ev.oracle.append("file fields: version %s: %r: field %s = %s read as %s" % (ver, t, n, canon(a), canon(b)))
+    ev.key = "mfile|%s|%d" % (ver, hash(tuple(texts)) & 0xffffffff)
+    return ev
+
+
 def eval_dispatch(d):
     ev = Eval()
     m = mods()
@@ -1222,6 +1403,8 @@ def evaluate(d):
         ev = eval_file(d)
     elif k == "dispatch":
         ev = eval_dispatch(d)
+    elif k == "mfile":
+        ev = eval_mfile(d)
     else:
         raise ValueError(k)
     ev.impl = [x for x in ev.impl]
